@@ -205,7 +205,11 @@ def _oracle(world, scn, res, exp_sig, exp_g, t_cause, t_end):
             for c in kids:
                 csig = [(t, s) for (t, s, via) in c.signals]
                 alive_t0 = c.death_time is None or c.death_time >= t0
-                if scn.sc and alive_t0 and _was_child_at(world, c, p, t0):
+                # the worker itself was still alive when its first signal was sent (a worker that died by itself just
+                # before - same instant, earlier in the kernel's event order - has no children any more)
+                first_seq = min([sq for sq, (t, pid, s, via) in zip(k.signal_seq, k.signal_log) if pid == p.pid and via != 'os.kill'] or [0])
+                worker_alive_at_first = p.death_seq is None or p.death_seq > first_seq
+                if scn.sc and alive_t0 and worker_alive_at_first and _was_child_at(world, c, p, t0):
                     res.check('C03.children_stop', any(abs(t - t0) <= TOL and s == exp_sig for t, s in csig),
                               lambda: 'stop_children: child %d of worker %d did not get signal %d at the stop (%s)'
                               % (c.pid - PID_BASE, p.pid - PID_BASE, exp_sig, csig),
